@@ -286,11 +286,16 @@ class SimpleOperationExecutor:
         """Implementation of ``file_comparison_result`` for ``'HASH'``."""
         norm_cased_filename = os.path.normcase(filename)
         is_built = self._new_cache.has_norm_cased_file(norm_cased_filename)
+        # While the file is being built, its contents are in flux: another
+        # thread may be about to replace it or in the middle of writing it. So
+        # we neither trust nor store a cache entry in the meantime.
+        is_building = self._is_building_norm_cased_file(norm_cased_filename)
 
         # Check _hash_cache
         with self._hash_cache_lock:
             cache_entry = self._hash_cache.get(norm_cased_filename)
-        if cache_entry is not None and cache_entry[1] == is_built:
+        if (not is_building and cache_entry is not None and
+                cache_entry[1] == is_built):
             # Manually check whether the file exists, since we won't be calling
             # "open"
             if not os.path.isfile(norm_cased_filename):
@@ -308,9 +313,19 @@ class SimpleOperationExecutor:
                 bytes_ = file_.read(1024)
         hash_ = digest.hexdigest()
 
-        with self._hash_cache_lock:
-            self._hash_cache[norm_cased_filename] = (hash_, is_built)
+        if (not is_building and
+                is_built == self._new_cache.has_norm_cased_file(
+                    norm_cased_filename) and
+                not self._is_building_norm_cased_file(norm_cased_filename)):
+            with self._hash_cache_lock:
+                self._hash_cache[norm_cased_filename] = (hash_, is_built)
         return hash_
+
+    def _is_building_norm_cased_file(self, norm_cased_filename):
+        """Return whether we started but haven't finished building a file."""
+        return (
+            self._new_cache.has_norm_cased_file(norm_cased_filename) and
+            self._new_cache.get_norm_cased_file(norm_cased_filename) is None)
 
     def _is_file_no_read(self, norm_cased_filename, created_files):
         """Implementation of ``is_file``, but without reading.
